@@ -201,7 +201,7 @@ def _rename(e, m):
     return _Ren(m).visit(copy.deepcopy(e))
 
 
-def match_link(link, cmps, ctx):
+def match_link(link, cmps, ctx, allow_rename=True):
     """find the row's comparison among those of one function, up to a renaming of the row's variables.
     returns ('ok', cmp) / ('moved', cmp, row_partition) / None"""
     import itertools
@@ -218,7 +218,12 @@ def match_link(link, cmps, ctx):
             continue
         # the row is written with the function's variable names: while they all still exist, they denote themselves;
         # only if one of them is gone (renamed) are the row's variables matched up to renaming
-        perms = [tuple(rn)] if all(x in ctx.locals for x in rn) else itertools.permutations(cn, len(rn))
+        if all(x in ctx.locals for x in rn):
+            perms = [tuple(rn)]
+        elif allow_rename:
+            perms = itertools.permutations(cn, len(rn))
+        else:
+            perms = []
         for perm in perms:
             m = dict(zip(rn, perm))
             # the renamed row is read in the function's own context (same inlining), but its variables must not be inlined twice
@@ -265,7 +270,9 @@ def r_boundary(pid):
                         if g is f:
                             continue
                         gctx = _Ctx(g.node)
-                        r2 = match_link(link, comparisons(g.node, gctx), gctx)
+                        # a helper the comparison was moved into keeps the row's variable names (no renaming here: with free
+                        # renaming any `x > 0` of the module would stand for the row)
+                        r2 = match_link(link, comparisons(g.node, gctx), gctx, allow_rename=False)
                         if r2 is not None and r2[0] == "ok":
                             status = "ok (made in %s)" % g.dqual
                             break
